@@ -72,31 +72,35 @@ theorem feetOf_length (m : Manifest) (op : Op) : (feetOf m op).length = 1 + (mid
 theorem mem_nextManifest {m : Manifest} {X : List Frag} {n : Nat} {f : Frag} (h : f ∈ X) : f ∈ (nextManifest m X n).frags :=
   (sortFrags_perm X).mem_iff.mpr h
 
+theorem patchRow_untouched (v : Nat) (src : List Row) (r : PRow) (h : (!r.deleted && upsertHit src r) = false) :
+    patchRow v src r = r := by
+  unfold patchRow
+  cases hd : r.deleted with
+  | true => simp
+  | false =>
+    simp only [hd, Bool.not_false, Bool.true_and] at h
+    unfold upsertHit at h
+    cases hs : sourceFor src (keyOf r.cells) with
+    | none => simp
+    | some s => simp [hs] at h
+
 theorem patch_untouched (v : Nat) (src : List Row) (f : Frag)
     (h : (f.rows.any fun r => !r.deleted && upsertHit src r) = false) :
     ({ f with rows := f.rows.map (patchRow v src) } : Frag) = f := by
-  have : f.rows.map (patchRow v src) = f.rows := by
-    apply List.map_id''
+  have hmap : f.rows.map (patchRow v src) = f.rows.map id := by
+    apply List.map_congr_left
     intro r hr
-    have hr' : (!r.deleted && upsertHit src r) = false := by
-      cases hc : (!r.deleted && upsertHit src r) with
-      | false => rfl
-      | true =>
-        have : (f.rows.any fun r => !r.deleted && upsertHit src r) = true := List.any_eq_true.mpr ⟨r, hr, hc⟩
-        rw [h] at this
-        cases this
-    unfold patchRow
-    cases hd : r.deleted with
-    | true => simp
-    | false =>
-      simp only [hd, Bool.not_false, Bool.true_and] at hr'
-      unfold upsertHit at hr'
-      cases hs : sourceFor src (keyOf r.cells) with
-      | none => simp
-      | some s => simp [hs] at hr'
+    apply patchRow_untouched
+    cases hc : (!r.deleted && upsertHit src r) with
+    | false => rfl
+    | true =>
+      have : (f.rows.any fun r => !r.deleted && upsertHit src r) = true := List.any_eq_true.mpr ⟨r, hr, hc⟩
+      rw [h] at this
+      cases this
+  rw [List.map_id] at hmap
   cases f
-  simp only at this
-  simp [this]
+  simp only at hmap
+  simp [hmap]
 
 /-- the lineage facts of the versions a sequential (non-commit-path) operation publishes -/
 theorem lin_seq (m : Manifest) (ms : List Manifest) (op : Op) (fts : List Foot) (hlin : Lin (m :: ms) fts)
@@ -341,24 +345,72 @@ theorem live_buildOn_du (L : Manifest) (T : Txn) (hk : T.kind ≠ .append) (hfr 
   refine (live_nextManifest _ _ _).trans ?_
   rw [liveOf_append, live_newFrags _ _ hfr _ (newRows_live L T)]
   
-/-- the commit of a Delete / Update transaction whose arm is `moveFrags A` on the latest fragments and whose captured ids
+theorem applyOne_keep {T : Txn} {f : Frag} (hu : f.id ∉ T.updated.map (·.id)) (hr : f.id ∉ T.removed) :
+    applyOne T f = some f := by
+  unfold applyOne
+  have : T.removed.contains f.id = false := by
+    apply Bool.eq_false_iff.mpr
+    intro hc
+    exact hr (by simpa using hc)
+  rw [this]
+  simp only [Bool.false_eq_true, if_false]
+  rw [find_by_id_none (l := T.updated) (by simpa [fragIds] using hu)]
+
+theorem applyOne_some {T : Txn} {f : Frag} (hr : f.id ∉ T.removed) : ∃ g, applyOne T f = some g := by
+  unfold applyOne
+  have : T.removed.contains f.id = false := by
+    apply Bool.eq_false_iff.mpr
+    intro hc
+    exact hr (by simpa using hc)
+  rw [this]
+  simp only [Bool.false_eq_true, if_false]
+  cases T.updated.find? fun u => u.id == f.id <;> simp
+
+theorem markFrag_grown {A : List (Nat × Nat)} {f g : Frag} (h : markFrag A f = some g) : Grown f g := by
+  rcases markFrag_some h with rfl | rfl
+  · exact Grown.refl _
+  · exact ⟨rfl, A, rfl⟩
+
+theorem stepOK_foot (L : Manifest) (T : Txn) (hk : T.kind ≠ .append) (hkind : T.kind = .update ∨ T.kind = .delete)
+    (hgrow : ∀ f ∈ L.frags, f.id ∈ T.updated.map (·.id) → f.id ∉ T.removed → ∀ g, applyOne T f = some g → Grown f g) :
+    StepOK L T.foot (buildOn L T) := by
+  rw [buildOn_du_eq L T hk]
+  refine ⟨?_, ?_, fun _ => hkind, fun _ => ?_⟩
+  · intro f hf hu hr
+    apply mem_nextManifest
+    apply List.mem_append_left
+    rw [applyFrags_def]
+    exact List.mem_filterMap.mpr ⟨f, hf, applyOne_keep hu hr⟩
+  · intro _ f hf hu hr
+    obtain ⟨g, hg⟩ := applyOne_some (T := T) hr
+    refine ⟨g, ?_, hgrow f hf hu hr g hg⟩
+    apply mem_nextManifest
+    apply List.mem_append_left
+    rw [applyFrags_def]
+    exact List.mem_filterMap.mpr ⟨f, hf, hg⟩
+  · rcases hkind with h | h
+    · exact Or.inl h
+    · exact Or.inr (Or.inl h)
+
+/-- the commit of a Delete / Update transaction whose arm is `markFrag A` on every latest fragment and whose captured ids
     are the ids of the visible rows at `A` -/
 theorem hinv_du {h : Hist} {L : Manifest} {ms : List Manifest} (hms : h.ms = L :: ms) (hi : HInv h)
-    (T : Txn) (A : List (Nat × Nat)) (hk : T.kind ≠ .append) (hfr : T.fileRows ≠ 0)
-    (harm : applyFrags T L.frags = moveFrags A L.frags)
-    (hm : T.moved = [] ∨ (T.moved.map (·.1)).Perm ((rowsAt A L.frags).map (·.2.rid))) (ft : Foot) :
-    HInv { ms := buildOn L T :: h.ms, feet := ft :: h.feet } := by
+    (T : Txn) (A : List (Nat × Nat)) (hk : T.kind ≠ .append) (hkind : T.kind = .update ∨ T.kind = .delete)
+    (hfr : T.fileRows ≠ 0) (harmE : ∀ f ∈ L.frags, applyOne T f = markFrag A f)
+    (hm : T.moved = [] ∨ (T.moved.map (·.1)).Perm ((rowsAt A L.frags).map (·.2.rid))) :
+    HInv { ms := buildOn L T :: h.ms, feet := T.foot :: h.feet } := by
   have hi' := hi
   obtain ⟨hinv, hfrag, _, _⟩ := hi'
   rw [hms] at hinv
   obtain ⟨hok, hbo, hno⟩ := hinv
   have hbL := hbo L (List.mem_cons_self ..)
   have hnL := hno L (List.mem_cons_self ..)
+  have harm := applyFrags_eq_moveFrags T A L.frags harmE
   have hperm := live_buildOn_du L T hk hfr
   rw [harm] at hperm
   obtain ⟨hnd, hlt⟩ := move_ids L T A hbL hnL hm
   have heq := buildOn_du_eq L T hk
-  apply hinv_push hms hi _ ft
+  apply hinv_push hms hi _ T.foot
   · rw [heq]; rfl
   · rw [heq, harm]
     apply fragOk_nextManifest
@@ -371,6 +423,11 @@ theorem hinv_du {h : Hist} {L : Manifest} {ms : List Manifest} (hms : h.ms = L :
     rw [this]
     exact hlt r (hperm.subset hr)
   · exact (rids_nodup_perm hperm).mpr hnd
+  · intro _ _
+    apply stepOK_foot L T hk hkind
+    intro f hf _ _ g hg
+    rw [harmE f hf] at hg
+    exact markFrag_grown hg
 
 /-- a Delete transaction without updated fragments only drops whole fragments -/
 theorem applyFrags_filter (T : Txn) (frags : List Frag) (hu : T.updated = []) :
@@ -401,9 +458,9 @@ theorem liveOf_filter_sublist (p : Frag → Bool) (frags : List Frag) : (liveOf 
 
 /-- the commit of a Delete transaction that removes whole fragments only (`delete true`) -/
 theorem hinv_drop {h : Hist} {L : Manifest} {ms : List Manifest} (hms : h.ms = L :: ms) (hi : HInv h)
-    (T : Txn) (hk : T.kind ≠ .append) (hfr : T.fileRows ≠ 0) (hu : T.updated = []) (hmv : T.moved = [])
-    (hfresh : T.fresh = []) (ft : Foot) :
-    HInv { ms := buildOn L T :: h.ms, feet := ft :: h.feet } := by
+    (T : Txn) (hk : T.kind ≠ .append) (hkind : T.kind = .update ∨ T.kind = .delete) (hfr : T.fileRows ≠ 0)
+    (hu : T.updated = []) (hmv : T.moved = []) (hfresh : T.fresh = []) :
+    HInv { ms := buildOn L T :: h.ms, feet := T.foot :: h.feet } := by
   have hi' := hi
   obtain ⟨hinv, hfrag, _, _⟩ := hi'
   rw [hms] at hinv
@@ -415,7 +472,7 @@ theorem hinv_drop {h : Hist} {L : Manifest} {ms : List Manifest} (hms : h.ms = L
   rw [hnr, List.append_nil, applyFrags_filter T L.frags hu] at hperm
   have hsub := liveOf_filter_sublist (fun f => !T.removed.contains f.id) L.frags
   have heq := buildOn_du_eq L T hk
-  apply hinv_push hms hi _ ft
+  apply hinv_push hms hi _ T.foot
   · rw [heq]; rfl
   · rw [heq, applyFrags_filter T L.frags hu]
     apply fragOk_nextManifest
@@ -430,5 +487,10 @@ theorem hinv_drop {h : Hist} {L : Manifest} {ms : List Manifest} (hms : h.ms = L
     omega
   · refine (rids_nodup_perm hperm).mpr ?_
     exact hnL.sublist (hsub.map _)
+  · intro _ _
+    apply stepOK_foot L T hk hkind
+    intro f _ hfu
+    rw [hu] at hfu
+    cases hfu
 
 end LanceModel.C18
